@@ -21,32 +21,38 @@ import c14_gen as G  # noqa: E402
 
 CLAIMED = True
 LEVEL = "proof"
-TECHNIQUE = ("Lean 4 invariant proofs over all event sequences of a hand model of the result-event machine "
-             "(ResultNamespacesStack, addResultAttribute, xsl:attribute/xsl:element/literal-result/copy decision trees) "
-             "+ correspondence run of generated stylesheets against the real library with a namespace-aware re-parse")
-LEVEL_TEXT = ("Machine-checked theorems about a hand model of the result-event machine (Props/C14.lean): for EVERY sequence "
-              "of engine requests the pending start tag never holds two attributes with one qname (induction over "
-              "arbitrary operation sequences); in every engine state, xsl:attribute with a namespace leaves the "
-              "attribute with the requested local name and a prefix the namespace stack binds to the requested URI "
-              "(partial: the code's getPrefixForNamespace ignores shadowing - counterexample proved and replayed); "
-              "xsl:attribute without a namespace does the same when the URI is not yet bound (partial, with the "
-              "ns<N>-not-declared counterexample of DESIGN 6 item 19) and unconditionally for the repaired code "
-              "(..._fixed theorems; translate/c14_variant.py tells which form of five code sites the tree has); the "
-              "invented prefix is always fresh (pigeonhole); the lazily created XalanNamespacesStack refines a plain "
-              "stack of frames for every push/pop/add history; compile-time exclusion keeps only needed declarations; "
-              "counterexamples for duplicate expanded names and for late attributes leaking to the next element. The "
-              "model is tied to the working tree by running generated stylesheets through the real library and the "
-              "compiled model and comparing the complete start-tag/attribute stream; the property itself is evaluated "
-              "on every real output by an independent oracle (expanded names requested vs namespace-aware parse).")
-LEVEL_NOTE = ("Trusted: Lean kernel; axioms propext/Classical.choice/Quot.sound only; the hand transcription "
-              "(XalanModel/C14/Engine.lean, Stylesheet.lean) validated by the correspondence run, bounded by generator "
-              "coverage; QName strings abstracted to (prefix, local) pairs; expat as the reference parser. Modelled, "
-              "not verified: AVT evaluation, attribute sets, namespace-alias, extension namespaces, result tree "
-              "fragments, the serializer (C04), the source tree builder. Theorems are about single engine operations "
-              "and arbitrary sequences of them; the (total) stylesheet interpreter exec is validated only by "
-              "correspondence; the regex translator c14_variant.py is trusted to recognise the five code sites "
-              "(cross-checked by the correspondence run).")
-DESIGN_REF = "DESIGN.md section 5, C14; design/C14.md"
+TECHNIQUE = ("Lean 4 proofs (induction over arbitrary engine-request sequences and over instruction trees, refinement of the "
+             "lazily created namespace stack to a plain stack of frames, per-site theorems for the old and the repaired form of "
+             "ten code sites) about a hand model of XSLTEngineImpl's result-event machine and NamespacesHandler; a regex "
+             "translator (translate/c14_variant.py) selects the model variant the working tree has; correspondence run of "
+             "generated stylesheets against the real library with a namespace-aware re-parse and an independent oracle")
+LEVEL_TEXT = ("Machine-checked (Props/C14.lean, 22 theorems): for EVERY sequence of engine requests, and for every instruction "
+              "tree run by the model's interpreter, no pending start tag holds two attributes with one qname; the invented "
+              "ns<N> prefix is unbound in the whole namespace stack (pigeonhole); the lazily created XalanNamespacesStack "
+              "refines a plain stack of frames for every push/pop/add history; in every engine state xsl:attribute (with and "
+              "without namespace), copied attribute nodes and literal attributes end with the requested local name and a prefix "
+              "bound to the requested URI - unconditionally for the repaired form of each code site (..._fixed), under stated "
+              "hypotheses for the form first analysed (..._partial) together with a replayed ..._counterexample; with the "
+              "proposed flushPending repair the delivered attribute list has pairwise distinct expanded names; compile-time "
+              "exclusion keeps only needed declarations, aliasing leaves no stylesheet-side URI, own bindings win over "
+              "inherited exclusions. The model is tied to the working tree on every run: translate/c14_variant.py reads ten "
+              "code sites and picks the model variant, and generated stylesheets (literal elements, xsl:element/attribute with "
+              "static/computed name+namespace, attribute sets, namespace-alias, exclude-result-prefixes, copy/copy-of of "
+              "namespaced source elements and attributes, ns<N>-like prefixes) are run through the real library and the compiled "
+              "model; the complete start-tag/attribute streams must agree, and an independent oracle checks the expanded names "
+              "of every real output against what the stylesheet asked for.")
+LEVEL_NOTE = ("Trusted: Lean kernel (leanchecker in the thorough tier); axioms propext/Classical.choice/Quot.sound only; the hand "
+              "transcription XalanModel/C14/{Engine,Stylesheet}.lean, validated by the correspondence run and bounded by generator "
+              "coverage; translate/c14_variant.py (normalised-text recognition of ten code sites, cross-checked by the "
+              "correspondence run); QName strings abstracted to (prefix, local) pairs; expat as reference parser; the oracle in "
+              "gen/c14_gen.py. There is no single end-to-end theorem 'exec output has the requested names': the theorems are "
+              "per engine operation / per code site and about qname uniqueness for whole trees; the interpreter exec is "
+              "otherwise validated by correspondence only. Modelled, not verified: AVT evaluation, the serializer (C04), the "
+              "source tree builder. Not modelled: xsl:import/include (hence the proposed import/alias repair is tested by hand "
+              "only), nested use-attribute-sets, extension namespaces, result tree fragments, xml:/xmlns: names in "
+              "xsl:attribute/xsl:element. Known findings still open in /repo until the round-5 diffs are committed: duplicate "
+              "expanded attribute, excluded prefix re-bound, attribute set re-binds a literal attribute's prefix.")
+DESIGN_REF = "design/C14.md (complete); DESIGN.md section 5 C14, section 6 item 19"
 
 THEOREMS = [
     "XalanModel.Props.C14.pending_attrs_nodup_qname",
@@ -68,6 +74,9 @@ THEOREMS = [
     "XalanModel.Props.C14.exec_pending_attrs_nodup_qname",
     "XalanModel.Props.C14.copied_attribute_resolves_fixed",
     "XalanModel.Props.C14.copied_attribute_counterexample",
+    "XalanModel.Props.C14.no_duplicate_expanded_attr_fixed",
+    "XalanModel.Props.C14.literal_attribute_keeps_namespace_fixed",
+    "XalanModel.Props.C14.handler_own_bindings_first_fixed",
 ]
 
 XML = G.XML
